@@ -305,7 +305,11 @@ func keygenNeed(e catalog.Entry) int {
 		k, _ := eciesKEM(q)
 		return k.randLen
 	case *compositemldsa.Parameters:
-		return 32
+		cp, err := internalcompmldsa.ParametersForClassicalAlgorithm(internalcompmldsa.ClassicalAlgorithm(q.ClassicalAlgorithm()))
+		if err != nil {
+			return 32
+		}
+		return 32 + keygenNeed(catalog.Entry{Params: cp})
 	}
 	if b := rsaModulusBits(e); b != 0 {
 		return b / 8
